@@ -9,6 +9,7 @@ mod c03;
 mod c05;
 mod c06;
 mod c07;
+mod c08;
 mod c18;
 mod c19;
 
@@ -62,6 +63,7 @@ fn main() {
         "C05" => c05::run(tier),
         "C06" => c06::run(tier),
         "C07" => c07::run(tier),
+        "C08" => c08::run(tier),
         "C18" => c18::run(tier),
         "C19" => c19::run(tier),
         _ => {
@@ -86,6 +88,7 @@ fn main() {
         "C05" => c05::replay(&sub, &v["witness"]),
         "C06" => c06::replay(&sub, &v["witness"]),
         "C07" => c07::replay(&sub, &v["witness"]),
+        "C08" => c08::replay(&sub, &v["witness"]),
         "C18" => c18::replay(&sub, &v["witness"]),
         "C19" => c19::replay(&sub, &v["witness"]),
         _ => Err(format!("no replay registered for {}", prop)),
